@@ -115,7 +115,7 @@ func c18IsHTML(resp *vfResp) bool {
 
 func c18World() *vfWorld {
 	w := vfNewWorld(vfOpts{CertBackends: []string{"password", "TOTP", "U2F"}, WebUIBackends: []string{"TOTP", "U2F"}, EnableTOTP: true, EnableBootstrap: true,
-		AdminUsers: []string{"admin"}, CliTokenLifetime: 3600e9,
+		AdminUsers: []string{"admin"}, CliTokenLifetime: 3600e9, AutomationUsers: []string{vfAutoUser}, AutomationAdmins: []string{"autoadmin"},
 		OIDCClients: []OpenIDConnectClientConfig{{ClientID: "cl", ClientSecret: "s", AllowedRedirectDomains: []string{"example.com"}}}})
 	w.vfEnableVIP()
 	w.vfEnableOAuth2()
@@ -144,7 +144,10 @@ func c18Fields() []string {
 }
 
 var c18Benign = map[string]string{"user": "alice", "username": "alice", "password": "x", "login_destination": "/profile/", "index": "1", "name": "tok", "action": "Update", "OTP": "123456",
-	"client_id": "cl", "redirect_uri": "https://app.example.com/cb", "state": "s", "scope": "openid", "nonce": "nonce-123456", "response_type": "code", "token": "t", "duration": "1h", "type": "ssh"}
+	"client_id": "cl", "redirect_uri": "https://app.example.com/cb", "state": "s", "scope": "openid", "nonce": "nonce-123456", "response_type": "code", "token": "t", "duration": "1h", "type": "ssh",
+	// well-formed values for the deeper parsing branches (role certificates, token endpoint):
+	// a payload in ONE field then reaches the code that handles that field
+	"identity": vfAutoUser, "requestor_netblock": "10.9.0.0/16", "target_netblock": "10.10.0.0/16", "port": "12345", "grant_type": "authorization_code", "code": "not-a-code"}
 
 type c18Point struct {
 	Route   string `json:"route"`
@@ -179,6 +182,7 @@ func c18Run(w *vfWorld, sess map[string][]*http.Cookie, p c18Point) (violated bo
 	for k, v := range c18Benign {
 		form.Set(k, v)
 	}
+	form.Set("pubkey", c11PubB64())
 	path := p.Path
 	hdr := map[string]string{"Accept": "text/html,application/xhtml+xml", "User-Agent": "Mozilla/5.0 Chrome/100.0"}
 	cookies := append([]*http.Cookie{}, sess[p.Session]...)
